@@ -10,9 +10,12 @@ import Ohsl.Driver.Vec
 import Ohsl.Driver.Poly
 import Ohsl.Driver.Tri
 import Ohsl.Driver.Band
+import Ohsl.Driver.Sparse
+import Ohsl.Driver.Krylov
+import Ohsl.Driver.Roots
 namespace Ohsl
 
-def executors : List (String → P (Option String)) := [DrvCx.exec, DrvMat.exec, DrvSolve.exec, DrvVec.exec, DrvPoly.exec, DrvTri.exec, DrvBand.exec]
+def executors : List (String → P (Option String)) := [DrvCx.exec, DrvMat.exec, DrvSolve.exec, DrvVec.exec, DrvPoly.exec, DrvTri.exec, DrvBand.exec, DrvSp.exec, DrvKrylov.exec, DrvRoots.exec]
 
 def exec (op : String) : P String := do
   for e in executors do
